@@ -1140,7 +1140,9 @@ class Gen:
         r = self.r
         self.count("func")
         name = self.fresh("f")
-        params = [(self.fresh("p"), r.choice(self.types())) for _ in range(r.choice([0, 1, 1, 2, 3]))]
+        # now and then more than nine parameters (fix e04506f: `$10` is `${1}0` for bash)
+        nparams = r.choice([0, 1, 1, 2, 3]) if r.random() > 0.04 else r.randrange(10, 13)
+        params = [(self.fresh("p"), r.choice(self.types())) for _ in range(nparams)]
         rets = [r.choice(self.types()) for _ in range(r.choice([0, 1, 1, 1, 2, 3]))]
         fscope = Scope(None, "function")
         # a function sees the globals defined before it
